@@ -101,6 +101,7 @@ func ruleParseArgs(p *Prog, r *Result) {
 
 func ruleLitData(p *Prog, r *Result) {
 	n := 0
+	ctors := map[*ssa.Function]*ssa.Parameter{}
 	for _, fn := range p.Funcs {
 		if fn.Signature.Recv() != nil {
 			continue
@@ -131,9 +132,52 @@ func ruleLitData(p *Prog, r *Result) {
 			n++
 			idx++
 			r.add(stripConv(st.Val) == textParam, fmt.Sprintf("%s|%s.Data#%d", p.FName(fn), o.Obj().Name(), idx), p.InstrPos(st), "the literal node keeps the text it was built from")
+			ctors[fn] = textParam.(*ssa.Parameter)
 		})
 	}
 	r.floor("literal constructors taking text", n, 2)
+	// ... and inside the parser that text is a token's text as it stands: a sign or a re-spelling glued on by the
+	// caller gives literals the lexer cannot produce (negative list indexes, texts that re-lex differently)
+	ncall := 0
+	for _, caller := range p.Funcs {
+		if caller.Signature.Recv() == nil || typeName(deref(caller.Signature.Recv().Type())) != "Parser" {
+			continue
+		}
+		k := 0
+		allInstrs(caller, func(in ssa.Instruction) {
+			c, ok := in.(*ssa.Call)
+			if !ok {
+				return
+			}
+			pa, isCtor := ctors[c.Call.StaticCallee()]
+			if !isCtor {
+				return
+			}
+			ai := -1
+			for i, q := range c.Call.StaticCallee().Params {
+				if q == pa {
+					ai = i
+				}
+			}
+			if ai < 0 || ai >= len(c.Call.Args) {
+				return
+			}
+			ncall++
+			k++
+			arg := stripConv(c.Call.Args[ai])
+			okv := isFieldLoad(arg, "Token", "Data")
+			if ph, isPhi := arg.(*ssa.Phi); isPhi {
+				okv = true
+				for _, e := range ph.Edges {
+					if !isFieldLoad(stripConv(e), "Token", "Data") {
+						okv = false
+					}
+				}
+			}
+			r.add(okv, fmt.Sprintf("%s|%s-text#%d", p.FName(caller), c.Call.StaticCallee().Name(), k), p.InstrPos(c), "the parser builds a literal from the token's own text")
+		})
+	}
+	r.floor("literal constructor calls in the parser", ncall, 3)
 }
 
 // ---------------- RMKEYFLOW ----------------
